@@ -27,7 +27,7 @@ static inline unsigned long long vh_ull(const char *s) { return strtoull(s, NULL
 
 /* A harness whose state cannot be trusted after the current case (a scheduled run that ended with its
  * threads parked in the middle of library calls: step limit, deadlock, diverged replay) asks for a new
- * process: the case's output is complete, the process exits with 98 and vlib.run_cases starts the
+ * process: the case's output is complete, the process exits with 96 and vlib.run_cases starts the
  * remaining cases in a fresh one (instead of a crash later on that is blamed on another case). */
 static int vh_restart_requested;
 static inline void vh_request_restart(void) { vh_restart_requested = 1; }
@@ -51,7 +51,7 @@ int main(void) { \
 		vh_op(argc_, argv_); \
 		alarm(0); \
 		fflush(stdout); \
-		if (vh_restart_requested) _exit(98); \
+		if (vh_restart_requested) _exit(96); \
 	} \
 	alarm(VH_OP_TIMEOUT); vh_reset(); alarm(0); free(line); return 0; }
 
